@@ -456,6 +456,15 @@ struct C02 {
                                                               "one-word instruction for the decoder, the disassembler and the interpreter", o), rp);
             return;
         }
+        // the generator sees the same operand in the second word: where the form's operand is a direct data address (MemImm16) the
+        // generator must treat the word as a data address (its vectors are only valid inside the compared windows), not as a free immediate
+        if (g.enabled && need_rec && g.gen_expand_kind == 1)
+            for (int a = 0; a < di.nargs; ++a)
+                if (std::strcmp(di.arg_types[a], "MemImm16") == 0) {
+                    Fail(Fmt("form:generator-operand-kind:%s", di.name), Fmt("opcode %04X ('%s'): the second word is a direct data address for the decoder, the disassembler and the interpreter, "
+                                                                           "but the test generator draws it as a free 16-bit immediate", o, Join(toks).c_str()), rp);
+                    return;
+                }
         if (g.need_expansion != (int)need_rec) {
             Fail(Fmt("length:generator:%s", di.name), Fmt("opcode %04X: test generator sees %d second word(s), decoder %d", o, g.need_expansion, need_rec), rp);
             return;
